@@ -129,41 +129,45 @@ ACCESSORS = [("Point", "eval", "leaf"), ("Expression", "eval", "leaf"), ("Constr
 
 def r_unsolved(ctx):
     n = 0
+    ensure_accessor_programs(ctx)
+    real_ob = ctx.ob
     for cname, meth, kind in ACCESSORS:
         fn = ctx.repo.method(cname, meth)
         ctx.unit("%s.%s" % (cname, meth))
         key = "%s.%s" % (cname, meth)
+        pk = ("accessor", cname, meth)
+        ob = lambda rule, k0, ok, msg="", where="", pk=pk: ctx.ob_or_program(pk, rule, k0, ok, msg, where)
         where = loc(fn, fn)
         n += 1
         if kind == "leaf":
             outs = _abstract_outcomes(fn, {"self._value is None": True, "self._is_leaf": True})
             kinds = {(o[0], o[1]) for o in outs if o[0] != "handler"}
             ok = kinds == {("raise", "ValueError")}
-            ctx.ob("R-UNSOLVED", key + "::unsolved-leaf", ok,
+            ob("R-UNSOLVED", key + "::unsolved-leaf", ok,
                    "an unsolved leaf raises ValueError" if ok else
                    "for a leaf without a stored value the accessor can end as %s instead of raising ValueError" % sorted(kinds), where)
             outs2 = _abstract_outcomes(fn, {"self._value is None": False, "self._is_leaf": True})
             kinds2 = {(o[0], o[1]) for o in outs2 if o[0] != "handler"}
             ok2 = kinds2 == {("return", "self._value")}
-            ctx.ob("R-UNSOLVED", key + "::solved-leaf", ok2,
+            ob("R-UNSOLVED", key + "::solved-leaf", ok2,
                    "a leaf with a stored value returns it" if ok2 else "a leaf with a stored value ends as %s" % sorted(kinds2), where)
             # a derived object never returns a constant / literal
             outs3 = _abstract_outcomes(fn, {"self._is_leaf": False})
             bad = [o for o in outs3 if o[0] == "return" and o[1] != "self._value"]
             bad_r = [o for o in outs3 if o[0] == "raise" and o[1] not in ("ValueError", "TypeError", "AssertionError")]
-            ctx.ob("R-UNSOLVED", key + "::derived", not bad and not bad_r,
+            ob("R-UNSOLVED", key + "::derived", not bad and not bad_r,
                    "a derived object returns its computed value; foreign kinds raise TypeError" if not bad and not bad_r else
                    "derived object can end as %s" % sorted({(o[0], o[1]) for o in bad + bad_r}), where)
         elif kind == "dual":
             outs = _abstract_outcomes(fn, {"self._dual_variable_value is None": True})
             kinds = {(o[0], o[1]) for o in outs if o[0] != "handler"}
             ok = kinds == {("raise", "ValueError")}
-            ctx.ob("R-UNSOLVED", key + "::no-dual", ok,
+            ob("R-UNSOLVED", key + "::no-dual", ok,
                    "no stored multiplier raises ValueError" if ok else "without a stored multiplier the accessor ends as %s" % sorted(kinds), where)
             outs2 = _abstract_outcomes(fn, {"self._dual_variable_value is None": False})
             kinds2 = {(o[0], o[1]) for o in outs2 if o[0] != "handler"}
             ok2 = kinds2 == {("return", "self._dual_variable_value")}
-            ctx.ob("R-UNSOLVED", key + "::has-dual", ok2, "returns the stored multiplier" if ok2 else "ends as %s" % sorted(kinds2), where)
+            ob("R-UNSOLVED", key + "::has-dual", ok2, "returns the stored multiplier" if ok2 else "ends as %s" % sorted(kinds2), where)
         else:
             # wrapper accessor: the sub-evaluation happens inside a try whose ValueError handler re-raises ValueError
             tries = [t for t in ast.walk(fn) if isinstance(t, ast.Try)]
@@ -183,12 +187,12 @@ def r_unsolved(ctx):
                 if isinstance(c, ast.Call) and call_name(c) == "eval" and not _inside_try_body(c, tries):
                     evals_outside.append(c)
             ok = ok_try and not evals_outside
-            ctx.ob("R-UNSOLVED", key + "::re-raise", ok,
+            ob("R-UNSOLVED", key + "::re-raise", ok,
                    "the ValueError of an unsolved operand is re-raised as ValueError" if ok else
                    "evaluation of the operands is not (entirely) inside a try whose ValueError handler raises ValueError", where)
             rets = {o[1] for o in _abstract_outcomes(fn, {}) if o[0] == "return"}
             bad = sorted(r for r in rets if r != "self._value")
-            ctx.ob("R-UNSOLVED", key + "::returns", not bad, "returns the computed value" if not bad else "returns %s" % bad, where)
+            ob("R-UNSOLVED", key + "::returns", not bad, "returns the computed value" if not bad else "returns %s" % bad, where)
     ctx.count("accessors", n)
     return n
 
@@ -258,10 +262,12 @@ def r_unsolved_program(ctx):
         it.home = (repo, fn._module, o.kind)
         return it.run(fn.body)
 
+    verdict = {}
     for solved in (False, True):
         from ..miniint import VecObj
         from ..nf import PointV
-        pts = [SymObj("Point", label="p%d" % k, counter=k, _is_leaf=True, _value=VecObj("Point", PointV.atom("p%d" % k)) if solved else None) for k in range(2)]
+        pts = [SymObj("Point", label="p%d" % k, counter=k, _is_leaf=True,
+                      _value=VecObj("Point", PointV.atom("p%d" % k), stored_array="leaf point p%d" % k) if solved else None) for k in range(2)]
         exs = [SymObj("Expression", label="e%d" % k, counter=k, _is_leaf=True, _value=Rat.sym("val_e%d" % k) if solved else None) for k in range(2)]
         for o in pts + exs:
             o.attrs["decomposition_dict"] = {o: 1}
@@ -274,11 +280,23 @@ def r_unsolved_program(ctx):
         lmi = SymObj("PSDMatrix", label="lmi", matrix_of_expressions=[[exs[0], dex], [exs[1], exs[1]]], shape=(2, 2), _value=None,
                      _dual_variable_value=("dual-matrix",) if solved else None, counter=0, entries_dual_variable_value=None)
         want_dpt = VecObj("Point", PointV.atom("p0").scale(Rat(2)) - PointV.atom("p1")) if solved else None
+        dpt1 = SymObj("Point", label="p0 + 3 p1", counter=None, _is_leaf=False, _value=None, decomposition_dict={pts[0]: Rat(1), pts[1]: Rat(3)})
+        want_dpt1 = VecObj("Point", PointV.atom("p0") + PointV.atom("p1").scale(Rat(3))) if solved else None
+        # a leaf created after the solve has no value: it makes every combination it belongs to impossible to evaluate, whatever its weight
+        late_p = SymObj("Point", label="p2 (created after the solve)", counter=2, _is_leaf=True, _value=None)
+        late_p.attrs["decomposition_dict"] = {late_p: 1}
+        dpt_late = SymObj("Point", label="p0 + 0 p2", counter=None, _is_leaf=False, _value=None, decomposition_dict={pts[0]: Rat(1), late_p: Rat(0)})
+        dex_late = SymObj("Expression", label="e1 + 0 <p0, p2>", counter=None, _is_leaf=False, _value=None,
+                          decomposition_dict={exs[1]: Rat(1), (pts[0], late_p): Rat(0)})
         cases = [("Point.eval, leaf", pts[0], "eval", pts[0].attrs["_value"]), ("Point.eval, combination", dpt, "eval", want_dpt),
+                 ("Point.eval, combination starting with weight 1", dpt1, "eval", want_dpt1),
                  ("Expression.eval, leaf", exs[0], "eval", Rat.sym("val_e0")), ("Expression.eval, combination", dex, "eval", want_dex),
                  ("Constraint.eval", con, "eval", want_dex), ("Constraint.eval_dual", con, "eval_dual", Rat.sym("lambda")),
                  ("PSDMatrix.eval", lmi, "eval", [[Rat.sym("val_e0"), want_dex], [Rat.sym("val_e1"), Rat.sym("val_e1")]]),
                  ("PSDMatrix.eval_dual", lmi, "eval_dual", ("dual-matrix",))]
+        if solved:
+            cases += [("Point.eval, combination with a weight-0 leaf created after the solve", dpt_late, "eval", "ValueError"),
+                      ("Expression.eval, combination with a weight-0 inner product of a leaf created after the solve", dex_late, "eval", "ValueError")]
         for label, obj, meth, want in cases:
             if (obj.kind, meth) not in methods:
                 continue
@@ -286,7 +304,9 @@ def r_unsolved_program(ctx):
             msg = None
             try:
                 ret = call_method(obj, meth, solved)
-                if not solved:
+                if want == "ValueError":
+                    msg = "returns `%r` although a leaf of the combination has no value (the documented outcome is ValueError, whatever the weight of that leaf)" % (ret,)
+                elif not solved:
                     msg = "returns `%r` although nothing has been solved" % (ret,)
                 else:
                     from ..miniint import _deep_eq
@@ -296,17 +316,31 @@ def r_unsolved_program(ctx):
                     elif not _deep_eq(ret, want):
                         msg = "returns `%r`, expected `%r`" % (ret, want)
             except ProgramRaise as ex:
-                if solved:
+                if want == "ValueError":
+                    if ex.exc != "ValueError":
+                        msg = "fails with %s instead of the documented ValueError" % ex.exc
+                elif solved:
                     msg = "raises on a solved model: %s" % ex
                 elif ex.exc != "ValueError":
                     msg = "fails with %s instead of the documented ValueError: %s" % (ex.exc, str(ex).replace("the index program raises: ", ""))
             except AnalysisError as ex:
                 ctx.notes.append("R-UNSOLVED program for %s (%s) skipped: %s" % (label, "solved" if solved else "unsolved", ex))
+                verdict[(obj.kind, meth)] = False
                 continue
+            verdict[(obj.kind, meth)] = verdict.get((obj.kind, meth), True) and msg is None
             n += 1
             ctx.ob("R-UNSOLVED", "%s::%s (unrolled)" % (label, "after a solve" if solved else "before any solve"), msg is None,
                    ("returns the value / multiplier of the object" if solved else "raises the documented ValueError") if msg is None else msg, loc(fn, fn))
     ctx.count("unsolved-state programs", n)
+    for k0, v0 in verdict.items():
+        if v0:
+            ctx.program_ok[("accessor",) + k0] = True
+    ctx._accessor_programs_done = True
+
+
+def ensure_accessor_programs(ctx):
+    if not getattr(ctx, "_accessor_programs_done", False):
+        r_unsolved_program(ctx)
 
 
 def r_operand_access(ctx):
@@ -689,7 +723,7 @@ def r_raise_message(ctx):
 def run(ctx):
     ne = r_except(ctx)
     na = r_unsolved(ctx)
-    r_unsolved_program(ctx)
+    ensure_accessor_programs(ctx)
     r_raise_message(ctx)
     r_operand_access(ctx)
     translate.r_evalshape(ctx)    # every term of a combination is evaluated (through its accessor), whatever its coefficient: an unsolved leaf always raises
